@@ -182,15 +182,23 @@ def classify(ctx, res, wd, tag):
 
 
 def shrink_failure(ctx, res, wd, tag, sig):
-    """smallest sub-file (record lines) on which the real code still fails the oracle; options are kept."""
-    lines = res["case"]["vcf"].rstrip("\n").split("\n")
+    """smallest sub-file (record lines) on which the real code still fails in the same way; options are kept.
+    Records of the *other* known defect class are removed first, so that the minimised input shows this class only."""
+    other = {SIG_F4: G.ps_missing_phased, SIG_PS: G.missing_gt}.get(sig)
+    start = res
+    if other is not None and any(other(r) for _, recs in res["groups"] for r in recs):
+        cand = run_case(ctx, reduced_case(res, other), wd, f"{tag}o")
+        if oracle_fails(cand) or cand["rc"] != 0:
+            start = cand
+    crashed = start["rc"] != 0
+    lines = start["case"]["vcf"].rstrip("\n").split("\n")
     head = [l for l in lines if l.startswith("#")]
     body = [l for l in lines if not l.startswith("#")]
     n = [0]
 
     def bad(cand):
         n[0] += 1
-        c = dict(res["case"])
+        c = dict(start["case"])
         c["vcf"] = "\n".join(head + cand) + "\n"
         try:
             r = run_case(ctx, c, wd, f"{tag}s{n[0]}")
@@ -198,9 +206,11 @@ def shrink_failure(ctx, res, wd, tag, sig):
             return False
         if sig == SIG_HP:
             return r["rc"] != 0 and "'NoneType' object has no attribute 'split'" in r["stderr"]
+        if crashed:
+            return r["rc"] != 0 and not r["case"].get("tags", {}).get("unsorted")
         return oracle_fails(r)
     small = shrink_list(body, bad)
-    c = dict(res["case"])
+    c = dict(start["case"])
     c["vcf"] = "\n".join(head + small) + "\n"
     return c
 
@@ -266,7 +276,7 @@ def check_batch(ctx, results, wd, label, report=True):
                                   {"case": confirm[j]["case"]})
         for sig, idxs in sorted(by_sig.items()):
             ctx.tally("violations." + sig, len(idxs))
-            first = min(idxs, key=lambda i: len(results[i]["case"]["vcf"]))
+            first = min(idxs, key=lambda i: (results[i]["rc"] == 0, len(results[i]["case"]["vcf"])))
             small_case = shrink_failure(ctx, results[first], wd, f"{label}m{first}", sig)
             small = run_case(ctx, small_case, wd, f"{label}min{first}")
             fs = coq_eval("C12" + label + "min", [small])
